@@ -57,6 +57,16 @@ def consts_check(ctx):
             cmp(f"encoded_state:{names.get(i)}", [ts_sz[i], ts_pt.get(names.get(i)), ts_sz[i], 1], [total, tb, memsz, back])
         else:
             cmp(f"encoded_state:{names.get(i)}", [ts_pt.get(names.get(i)), 1], [tb, back])
+    # the client's account decoder followed through its offsets (translator) against the accounts the SDK encodes:
+    # the header fields are read where the SDK writes them, and what is handed on as the proof context is exactly
+    # the SDK's context (its size, for every proof type)
+    cmp("ts_decoder_header_reads", [r[1:] for r in (t.get("ts_decoder_reads") or [])], [m[1:] for m in t.get("meta_fields", [])])
+    cmp("ts_decoder_context_offset", t.get("ts_decoder_context_offset"), c["meta_size"])
+    ctx_size = {d[0]: d[2] for d in c["declared"]}
+    off = t.get("ts_decoder_context_offset")
+    for i, total, tb, memsz, back in c.get("encoded_states", []):
+        if i in ctx_size:
+            cmp(f"ts_decoded_context_length:{names.get(i)}", None if off is None else total - off, ctx_size[i])
     if not c.get("encoded") or not c.get("encoded_states"):
         out.append({"kind": "const", "line": "zkh const encoded", "impl": None, "model": None, "note": "encoded section missing"})
     return out, rows
@@ -158,7 +168,8 @@ PROPS = {
     "C19": dict(module="ZkElGamal.Props.C19", ns="Zk.Props.C19", trusted=[DALEK],
                 rule="each op is N repeated calls of one generator/prover on identical inputs; the verdict is pairwise distinctness of every fresh field across the N calls (no model needed); distinct = distinct op body",
                 assumptions=["rand::OsRng / getrandom is external: that the OS source never repeats is not shown",
-                             "PARTIAL: a prover mixing fresh randomness with a biased derivation, or reusing a nonce only with small probability, is invisible to this check"]),
+                             "PARTIAL: a prover mixing fresh randomness with a biased derivation, or reusing a nonce only with small probability, is invisible to this check",
+                             "the range prover's mask vectors s_L, s_R appear in no output; they are tested only against rank-1 hypotheses along seven guessable directions (with the witness known, ipp.a / ipp.b fix the coefficients and t_x tests the guess)"]),
     "C20": dict(module="ZkElGamal.Props.C20", ns="Zk.Props.C20", trusted=[DALEK, MERLIN], assumptions=[DALEK, MERLIN]),
     "C06": dict(module="ZkElGamal.Props.C06", ns="Zk.Props.C06", trusted=[DALEK, MERLIN],
                 assumptions=[DALEK, MERLIN, "the quantifier 'across every future revision' is met by pinning: kat/v1.ops and Model/LabelsV1.lean are committed and never regenerated by a check",
@@ -194,7 +205,7 @@ PROPS = {
     "C17": dict(module="ZkElGamal.Props.C17", ns="Zk.Props.C17", gens=["C17"], extra=[consts_check], exhaustive=True,
                 rule="finite tables: 13 discriminators, 13 proof types, 12 context account sizes, header size, program id; "
                      "each row is one case; the Rust column is additionally compared with the compiled crate (zkh const)",
-                assumptions=["TypeScript sources are parsed as text (enum bodies, exported numeric constants, address literal)"]),
+                assumptions=["TypeScript sources are parsed as text (enum bodies, exported numeric constants, address literal); the account decoder is followed statement by statement through its offsets (a form the translator cannot follow is reported as a broken obligation)"]),
 }
 
 SIGMA_NOTE = ("Trusted: Lean kernel; curve25519-dalek and merlin are modelled (theorems over an abstract field/module with lawful codecs and an arbitrary "
@@ -242,7 +253,7 @@ MANIFEST_TEXT = {
     "C19": dict(
         technique="Lean 4 proof (published values are injective in the nonces; nonce reuse leaks the witness) + repeated-call distinctness test of every generator, encryptor and prover on identical inputs",
         text="Theorems: y*P injective in y for P != 0; commitments injective in (x, r) for independent generators; different openings give different handles / commitments / masking-commitment bytes (codec injective); shared nonce + different challenges reveal the witness. "
-             "Run: 64 (quick) / 4096 (thorough) repeated calls with equal arguments of keygen, AE keygen, openings, Pedersen::new, ElGamal / grouped / AE encryption and all twelve provers (cap below and at the cap, identity auditor) — every opening, handle, nonce, masking commitment and response field must be pairwise distinct. PARTIAL (OS randomness, biased nonces).",
+             "Run: 64 (quick) / 4096 (thorough) repeated calls with equal arguments of keygen, AE keygen, openings, Pedersen::new, ElGamal / grouped / AE encryption and all twelve provers (cap below and at the cap, identity auditor) — every opening, handle, nonce, masking commitment and response field must be pairwise distinct; nonces recovered with the witness must be full-size; samples are also taken on new threads and in forked children; range-proof mask vectors are tested against constant / guessable-direction hypotheses. PARTIAL (OS randomness, biased nonces).",
         note="Trusted: Lean kernel; OsRng external. The verdict of the run is pairwise distinctness, independent of the model."),
     "C20": dict(
         technique="Lean 4 proof (new = error iff the witness violates the relation, per constructor) + differential correspondence on witnesses violating exactly one relation",
@@ -309,7 +320,7 @@ MANIFEST_TEXT = {
         note="Trusted: Lean kernel; translator; bytemuck's treatment of align-1 repr(C) structs (the `unsafe impl Pod`) is validated differentially, not proved."),
     "C17": dict(
         technique="Lean 4 `decide +kernel` over two tables regenerated from the TypeScript and Rust sources on every run; Rust column cross-checked against the compiled crate",
-        text="Exhaustive finite-table equality: 13 discriminators, 13 proof types, 12 per-action context account sizes (= header + size_of context), header size, program address (base58-decoded) — proved by the kernel on regenerated tables and re-compared with values reported by the compiled crate. Correspondence: every byte 0..255 through the SDK's proof-type and instruction-type readers, a context state of every proof type for every context layout written and read back, zeroed accounts of each declared size.",
+        text="Exhaustive finite-table equality: 13 discriminators, 13 proof types, 12 per-action context account sizes (= header + size_of context), header size, program address (base58-decoded), and the offsets at which the client's account decoder reads the header fields and slices the context — proved by the kernel on regenerated tables and re-compared with values reported by the compiled crate. Correspondence: every byte 0..255 through the SDK's proof-type and instruction-type readers, a context state of every proof type for every context layout written and read back, zeroed accounts of each declared size.",
         note="Trusted: Lean kernel; translator's TS/Rust text parsing (a parse failure is reported as a broken obligation, never a silent pass)."),
 }
 
